@@ -216,9 +216,12 @@ func runSeqA(c *core.Ctx, cfg trigh.Config, v keyVariant, seq []byte, st *aStats
 			key := "trigger-poll-mismatch:" + cfg.Name()
 			if corrupt {
 				key = "selftest:" + key
-			} else if cfg.Has('W') && v.collision() && subsetCounts(gm, wm) {
+			} else if cfg.Has('W') && v.collision() && subsetCounts(gm, wm) && partnerFired(gm, wm, v) {
 				// predicate: two distinct group keys with the same instant in different Locations;
-				// symptom: the real trigger fires a strict subset of what is due.
+				// symptom: the real trigger fires a strict subset of what is due, and every key it
+				// misses is one whose colliding partner it does fire in the same Poll (the two
+				// share one slot of the trigger's tree; a trigger that loses keys in any other way
+				// is not this finding).
 				key = findingKey
 				st.known++
 			}
@@ -246,6 +249,24 @@ func sameCounts(a, b map[string]int) bool {
 func subsetCounts(a, b map[string]int) bool {
 	for k, n := range a {
 		if b[k] < n {
+			return false
+		}
+	}
+	return true
+}
+
+// partnerFired: every key missing from the real result (model - real) has its partner (the other
+// key of the variant) in the real result.
+func partnerFired(real, model map[string]int, v keyVariant) bool {
+	for k, n := range model {
+		if real[k] >= n {
+			continue
+		}
+		partner := v.gid[0]
+		if k == v.gid[0] {
+			partner = v.gid[1]
+		}
+		if real[partner] == 0 {
 			return false
 		}
 	}
@@ -346,7 +367,7 @@ func partA(c *core.Ctx) {
 		idx := 0
 		seqsPerJob[i] = enumerateA(j.L, func(seq []byte) {
 			idx++
-			corrupt := selftest && idx%40000 == 0
+			corrupt := selftest && idx%9973 == 0
 			runSeqA(c, j.cfg, j.v, seq, st, corrupt)
 		})
 		c.Eval(st.evals)
